@@ -479,6 +479,13 @@ def _as_lists(expr, cfg, rd, at_stmt):
                 if dn.kind == "stmt" and isinstance(dn.ast, ast.Assign) and \
                         isinstance(dn.ast.value, (ast.List, ast.Tuple)):
                     out.append(dn.ast.value.elts)
+                elif dn.kind == "stmt" and isinstance(dn.ast, ast.Assign) \
+                        and isinstance(dn.ast.value, ast.Name) and \
+                        dn.ast.value.id != expr.id:
+                    sub = _as_lists(dn.ast.value, cfg, rd, dn.ast)
+                    if not sub:
+                        return []
+                    out.extend(sub)
                 else:
                     return []
         return out
